@@ -84,6 +84,19 @@ pub fn check_layout(module: &Module) -> Result<(), LayoutError> {
                 layout_metal,
             ));
         }
+
+        // The same total size does not mean the fields are in the same places
+        debug_assert_eq!(layout_hlsl.fields.len(), layout_metal.fields.len());
+        for (field_hlsl, field_metal) in layout_hlsl.fields.iter().zip(&layout_metal.fields) {
+            if field_hlsl.1 != field_metal.1 {
+                return Err(LayoutError::MismatchedFieldOffset(
+                    loc,
+                    field_hlsl.0.trim_start_matches('.').to_string(),
+                    field_hlsl.1,
+                    field_metal.1,
+                ));
+            }
+        }
     }
 
     Ok(())
@@ -92,6 +105,7 @@ pub fn check_layout(module: &Module) -> Result<(), LayoutError> {
 pub enum LayoutError {
     UnknownLayout(SourceLocation),
     MismatchedLayout(SourceLocation, Layout, Layout),
+    MismatchedFieldOffset(SourceLocation, String, u32, u32),
 }
 
 impl CompileError for LayoutError {
@@ -113,6 +127,17 @@ impl CompileError for LayoutError {
                 *loc,
                 Severity::Error,
             ),
+            LayoutError::MismatchedFieldOffset(loc, field, lhs, rhs) => w.write_message(
+                &|f| {
+                    write!(
+                        f,
+                        "struct field '{}' has offset {} on HLSL but offset {} on Metal",
+                        field, lhs, rhs,
+                    )
+                },
+                *loc,
+                Severity::Error,
+            ),
         }
     }
 }
@@ -127,6 +152,10 @@ enum PackingMode {
 pub struct Layout {
     size: u32,
     align: u32,
+
+    /// Offset of each scalar or vector field in the type
+    /// For arrays this has the fields of the first element and the offset of the second element
+    fields: Vec<(String, u32)>,
 }
 
 fn get_type_layout(module: &Module, ty: TypeId, mode: PackingMode) -> Option<Layout> {
@@ -139,6 +168,7 @@ fn get_type_layout(module: &Module, ty: TypeId, mode: PackingMode) -> Option<Lay
                 size,
                 // Assume all scalars have the same size and alignment
                 align: size,
+                fields: Vec::from([(String::new(), 0)]),
             }),
             None => panic!("unexpected unsized scalar"),
         },
@@ -158,13 +188,24 @@ fn get_type_layout(module: &Module, ty: TypeId, mode: PackingMode) -> Option<Lay
         TypeLayer::Matrix(_, _, _) => None,
         TypeLayer::Struct(sid) => {
             let def = &module.struct_registry[sid.0 as usize];
-            let mut layout = Layout { size: 0, align: 1 };
+            let mut layout = Layout {
+                size: 0,
+                align: 1,
+                fields: Vec::new(),
+            };
             for member in &def.members {
                 let member_layout = get_type_layout(module, member.type_id, mode)?;
                 layout.size = layout.size.next_multiple_of(member_layout.align);
+                for (name, offset) in member_layout.fields {
+                    layout
+                        .fields
+                        .push((format!(".{}{}", member.name, name), layout.size + offset));
+                }
                 layout.size += member_layout.size;
                 layout.align = layout.align.max(member_layout.align);
             }
+            // The size of a struct includes the padding that makes arrays of it aligned
+            layout.size = layout.size.next_multiple_of(layout.align);
             Some(layout)
         }
         TypeLayer::StructTemplate(_) => panic!("unexpected struct template"),
@@ -175,7 +216,16 @@ fn get_type_layout(module: &Module, ty: TypeId, mode: PackingMode) -> Option<Lay
         TypeLayer::Object(_) => None,
         TypeLayer::Array(ty, Some(count)) => {
             let mut layout = get_type_layout(module, ty, mode)?;
-            layout.size *= u32::try_from(count).unwrap();
+            let count = u32::try_from(count).unwrap();
+            let stride = layout.size.next_multiple_of(layout.align);
+            for field in &mut layout.fields {
+                field.0.insert_str(0, "[0]");
+            }
+            if count > 1 {
+                // All other elements are consistent if the first element and the stride are consistent
+                layout.fields.push((String::from("[1]"), stride));
+            }
+            layout.size = stride * count;
             Some(layout)
         }
         TypeLayer::Array(_, None) => None,
